@@ -475,13 +475,15 @@ def run(ctx):
                               models_of_constraints=[bits_json(gen, b) for b in ours]), True)
         # reduction part: whenever the reduction had >= 2 states to look at
         if rec["reduce"] and len(rec["reduce"][0][2]) >= 2:
-            try:
-                res_full, _rec_full = run_compiler(gen, inst.bits, disable_reduction=True)
-            except Exception as e:  # noqa
-                ctx.fail("impl-exception", "compilation without the reduction raised %r" % (e,), ["c30", "compile-raises"],
-                         inst.describe(), False)
-                continue
-            full = Compiled(gen, res_full)
+            full = None
+            if len(rec["reduce"][0][3]) < len(rec["reduce"][0][2]):
+                try:
+                    res_full, _rec_full = run_compiler(gen, inst.bits, disable_reduction=True)
+                except Exception as e:  # noqa
+                    ctx.fail("impl-exception", "compilation without the reduction raised %r" % (e,), ["c30", "compile-raises"],
+                             inst.describe(), False)
+                    continue
+                full = Compiled(gen, res_full)
             nproblem, prepared, nstates, kept = rec["reduce"][0]
             nptext, atom, lit = prepared_to_nprob(prepared)
             ngfl = list(prepared.ground_fluent_expressions)
@@ -498,11 +500,11 @@ def run(ctx):
             inst.all_bits = all_bits
             inst.red_text = (
                 "{| r_NP := %s;\n r_states := %s; r_basis := %s; r_targets := %s;\n r_all := %s;\n r_kept := %s;\n"
-                " r_CPfull := %s;\n r_c0full := %s; r_cactsfull := %s |}" % (
+                " r_full := %s |}" % (
                     nptext, glist([glist([gn(a) for a in t]) for t in trues]), glist([gnat(j) for j in basis]),
                     glist([lit(t) for t in prepared.merge_targets]),
                     glist([inst.ser_bits(b) for b in all_bits]), glist([inst.ser_bits(b) for b in kept_bits]),
-                    full.render(), full.ser_c0(), full.ser_cacts()))
+                    gopt(None if full is None else "(%s,\n %s, %s)" % (full.render(), full.ser_c0(), full.ser_cacts()))))
             inst.basis, inst.full = basis, full
             stats["reduction_cases"] += 1
             stats["reduction_dropped"] += len(basis) < len(nstates)
@@ -568,8 +570,17 @@ def run(ctx):
                      "a valid plan of the compiled problem maps back to a plan that is not conformant (theorem C30_sound_check_correct; checker sound_check)",
                      ["c30", "soundness", kind_tag], dict(inst.describe(), witness=det, coq_witness=w), pf)
         if flags & 2:
-            w = ctx.coq_show("witness_conformant c", imports=IMPORTS, preamble=pre)
-            ids = parse_ids(w)
+            # re-validate on the real engines first: a conformant plan found with the real simulator + an exact search of the
+            # compiled problem; Coq's own witness is only fetched when the implementation-side search does not confirm
+            with warnings.catch_warnings():
+                warnings.simplefilter("ignore")
+                pyplan = inst.oracle.belief_search([inst.gen.state_of(b) for b in inst.bits], inst.insts, inst.n)
+            w = None
+            if pyplan is not None:
+                ids = [inst.insts.index(st) for st in pyplan]
+            else:
+                w = ctx.coq_show("witness_conformant c", imports=IMPORTS, preamble=pre)
+                ids = parse_ids(w)
             pf, det = (False, {"error": "no witness from the model"}) if ids is None else revalidate_incomplete(inst, ids)
             tags = ["c30", "completeness", kind_tag] + diagnose_incomplete(inst)
             ctx.fail("oracle" if pf else "corr",
@@ -591,7 +602,7 @@ def run(ctx):
             ctx.fail("oracle", "the compiled problem's solvability differs with and without the dominated-state reduction",
                      ["c30", "reduction", "classical-answer-changes"],
                      dict(inst.describe(), kept=[bits_json(inst.gen, inst.all_bits[j]) for j in basis],
-                          compiled_actions_without_reduction=[a.name for a in full.cacts]), True)
+                          compiled_actions_without_reduction=[a.name for a in (full.cacts if full else [])]), True)
     if not ok_proofs:
         ctx.proof_broken()
     ctx.finish({
